@@ -789,9 +789,9 @@ def d_bp(site):
         return None
     k = op_const_int(rv['b'])
     if rv['op'] == 'MulWithOverflow' and k == 2 and _is_precedence(site.body, rv['a']):
-        return ('D-vetted', 'left binding power = 2 * registered precedence; precedences are <= 10^9 by the contract of register_infix_op, so 2p < i32::MAX')
+        return ('D-contract', 'left binding power = 2 * registered precedence; precedences are <= 10^9 by the contract of register_infix_op, so 2p < i32::MAX')
     if rv['op'] in ('AddWithOverflow', 'SubWithOverflow') and k == 1 and _is_precedence(site.body, rv['a']):
-        return ('D-vetted', 'right binding power = left binding power +- 1 on a registered precedence (positive, <= 10^9 by contract)')
+        return ('D-contract', 'right binding power = left binding power +- 1 on a registered precedence (positive, <= 10^9 by contract)')
     return None
 
 
@@ -813,7 +813,8 @@ def evaluate(bodies, extra_dischargers=(), rule='PANIC'):
             key = '%s|%s' % (rule, s.key)
             if res:
                 st = assumed if res[0] == 'D-lock' else ok
-                obs.append(st(rule, key, '%s at %s: %s — discharged by %s: %s' % (s.cls, s.callee, s.reason, res[0], res[1]), s.where(), discharge=res[0]))
+                obs.append(st(rule, key, '%s at %s: %s — discharged by %s: %s' % (s.cls, s.callee, s.reason, res[0], res[1]), s.where(), discharge=res[0],
+                              **({'body': s.body.name, 'bb': s.bb} if res[0] == 'D-contract' else {})))
             else:
                 obs.append(bad(rule, key, 'undischarged panic site: %s %s (%s) in %s' % (s.cls, s.callee, s.reason, s.body.name), s.where(),
                                body=s.body.name, bb=s.bb, callee=s.callee, cls=s.cls))
